@@ -256,26 +256,14 @@ def run(chk, w):
 
 
 def dispatcher(P):
-    best = None
-    for f in P.repo_functions():
-        for i in f.all_insts():
-            if i.op == "switch" and len(i["cases"]) >= 30:
-                best = f
-    if best is None:
-        raise AnalysisBroken("dispatcher (switch over >= 30 message types) not found")
-    return best
+    from .. import dispatch
+    return dispatch.find_dispatcher(P)[0]
 
 
 def type_param(disp):
-    """index of the parameter the big switch is on"""
-    for i in disp.all_insts():
-        if i.op == "switch" and len(i["cases"]) >= 30:
-            src = rules.load_source(disp, i["cond"])
-            if src and src[0] == "alloca":
-                k = disp.param_index_of_alloca(disp.insts[src[1]])
-                if k is not None:
-                    return k
-    raise AnalysisBroken("dispatcher switch is not on a parameter")
+    """index of the parameter the dispatcher's switch(es) are on"""
+    from .. import dispatch
+    return dispatch.find_dispatcher(disp.prog)[3 - 1]
 
 
 def _alloca_of(f, o):
